@@ -10,8 +10,8 @@ import (
 	"log"
 	"net"
 	"os"
-	"strconv"
 	"runtime"
+	"strconv"
 	"strings"
 	"time"
 
@@ -45,13 +45,15 @@ type plainTransport struct{ t *memberlist.NetTransport }
 func (p plainTransport) FinalAdvertiseAddr(ip string, port int) (net.IP, int, error) {
 	return p.t.FinalAdvertiseAddr(ip, port)
 }
-func (p plainTransport) WriteTo(b []byte, addr string) (time.Time, error) { return p.t.WriteTo(b, addr) }
-func (p plainTransport) PacketCh() <-chan *memberlist.Packet                { return p.t.PacketCh() }
+func (p plainTransport) WriteTo(b []byte, addr string) (time.Time, error) {
+	return p.t.WriteTo(b, addr)
+}
+func (p plainTransport) PacketCh() <-chan *memberlist.Packet { return p.t.PacketCh() }
 func (p plainTransport) DialTimeout(addr string, d time.Duration) (net.Conn, error) {
 	return p.t.DialTimeout(addr, d)
 }
 func (p plainTransport) StreamCh() <-chan net.Conn { return p.t.StreamCh() }
-func (p plainTransport) Shutdown() error            { return p.t.Shutdown() }
+func (p plainTransport) Shutdown() error           { return p.t.Shutdown() }
 
 // Start creates a node. port 0 = dynamic. secretKey: the primary key is given as Config.SecretKey instead of inside the keyring.
 func Start(c puppet.NodeConf, mode int, port int, secretKey bool) (*Node, error) {
